@@ -248,6 +248,17 @@ def gen_durations(full):
                         val = sign + body
                         spelling = prefix + "'" + val + "'"
                         out.append(("Duration", spelling, ("Duration", val), secs))
+    # carry boundaries: a unit's count may exceed the next unit's size (P12M is 12 x 30.44 days, not one 365.25-day year; PT90M, PT3600S)
+    unit_secs = {"Y": Fraction("365.25") * 86400, "M": Fraction("30.44") * 86400, "D": Fraction(86400), "H": Fraction(3600), "Mi": Fraction(60), "S": Fraction(1)}
+    for unit in unit_secs:
+        for v in (11, 12, 13, 18, 23, 24, 25, 30, 31, 59, 60, 61, 100, 120, 365, 366, 1000, 86400):
+            body = "P" + ("T" if unit in ("H", "Mi", "S") else "") + str(v) + unit[0]
+            for sign in ("", "-"):
+                out.append(("Duration", "duration'" + sign + body + "'", ("Duration", sign + body), (-1 if sign else 1) * v * unit_secs[unit]))
+    for y, mo, d in ((1, 12, 0), (1, 30, 2), (0, 120, 400), (2, 13, 31)):
+        body = "P%dY%dM%dDT25H61M61.5S" % (y, mo, d)
+        secs = y * unit_secs["Y"] + mo * unit_secs["M"] + d * 86400 + 25 * 3600 + 61 * 60 + Fraction("61.5")
+        out.append(("Duration", "duration'" + body + "'", ("Duration", body), secs))
     # lower-case designators are normalised to upper case (documented)
     out.append(("Duration", "duration'p1dt2h'", ("Duration", "P1DT2H"), Fraction(86400 + 7200)))
     return out
